@@ -33,6 +33,8 @@ struct St {
   mc::Shared<int> next{0};
   mc::Shared<int> workers_waiting{0};
   mc::Shared<int> outer_ran{0};
+  mc::Shared<int> outer_on_t0{0}, leaf_on_t0{0}, max_waiting{0};
+  dispenso::ThreadPool* pool = nullptr;
   int N = 0;
   int base(int k) {
     int b = next.add(k);
@@ -42,6 +44,7 @@ struct St {
   void leaf(int id) {
     int prev = leaf_ran[id].add(1);
     MC_CHECK(prev == 0, "leaf %d ran a second time", id);
+    if (!on_pool_thread(*pool)) leaf_on_t0.add(1);
   }
 };
 
@@ -50,7 +53,9 @@ struct WaitScope { // bookkeeping only: "every worker is inside a wait at the sa
   bool worker;
   WaitScope(St& st, dispenso::ThreadPool& pool) : s(st), worker(on_pool_thread(pool)) {
     if (worker) {
-      if (s.workers_waiting.add(1) + 1 == s.N) mc::cover("all_workers_in_wait");
+      int w = s.workers_waiting.add(1) + 1;
+      s.max_waiting.max_with(w);
+      if (w == s.N) mc::cover("all_workers_in_wait");
       if (pool.stealRingsWithWork_.a_.load(std::memory_order_relaxed) != 0) mc::cover("steal_ring_nonempty_at_wait");
     } else {
       mc::cover("t0_in_inner_wait");
@@ -77,6 +82,7 @@ void inner_set(St& s, dispenso::ThreadPool& pool, Set& set, int k, bool ifq) {
 
 void run_inner(St& s, dispenso::ThreadPool& pool, char kind, int k, bool ifq) {
   s.outer_ran.add(1);
+  if (!on_pool_thread(pool)) s.outer_on_t0.add(1);
   switch (kind) {
     case 'T': {
       mc::cover("inner_T");
@@ -162,6 +168,7 @@ MC_HARNESS(nest) {
   s.N = N;
   {
     dispenso::ThreadPool pool((size_t)N);
+    s.pool = &pool;
     if (o == "T") {
       dispenso::TaskSet set(pool);
       outer(s, pool, set, prog, k, fq);
@@ -178,6 +185,9 @@ MC_HARNESS(nest) {
   MC_CHECK(s.outer_ran.get() == (int)prog.size(), "only %d of %d outer tasks ran", s.outer_ran.get(), (int)prog.size());
   for (int i = 0; i < s.next.get(); i++) MC_CHECK(s.leaf_ran[i].get() == 1, "leaf %d ran %d times", i, s.leaf_ran[i].get());
   mc::observe("leaves", s.next.get());
+  mc::observe("outer_on_t0", s.outer_on_t0.get());
+  mc::observe("leaf_on_t0", s.leaf_on_t0.get());
+  mc::observe("max_waiting", s.max_waiting.get());
 }
 
 // ================================================================================================ C16
@@ -192,6 +202,7 @@ struct St {
   mc::Shared<const void*> thr[kMaxFn];
   mc::Shared<int> next{0};
   mc::Shared<int> waited{0};
+  mc::Shared<int> sib_inline{0}, sib_pending{0}, sib_other{0};
   dispenso::ConcurrentTaskSet* ts = nullptr;
 };
 void recurse(St& s, int shape, int a, int d);
@@ -227,9 +238,18 @@ void group(St& s, int shape, int a, const int* child_d) {
   MC_CHECK(s.fin[last].get() == 1, "parallel_invoke returned before its last functor (%d) had finished (ran=%d)", last, s.ran[last].get());
   MC_CHECK(s.thr[last].get() == me, "the last functor (%d) of parallel_invoke did not run on the calling thread", last);
   for (int i = 0; i + 1 < a; i++) {
-    if (s.fin[b + i].get() == 1 && s.thr[b + i].get() == me) mc::cover("sibling_ran_inline_on_caller");
-    if (s.fin[b + i].get() == 0) mc::cover("sibling_pending_at_return");
-    if (s.ran[b + i].get() == 1 && s.thr[b + i].get() != me) mc::cover("sibling_on_other_thread");
+    if (s.fin[b + i].get() == 1 && s.thr[b + i].get() == me) {
+      mc::cover("sibling_ran_inline_on_caller");
+      s.sib_inline.add(1);
+    }
+    if (s.fin[b + i].get() == 0) {
+      mc::cover("sibling_pending_at_return");
+      s.sib_pending.add(1);
+    }
+    if (s.ran[b + i].get() == 1 && s.thr[b + i].get() != me) {
+      mc::cover("sibling_on_other_thread");
+      s.sib_other.add(1);
+    }
   }
 }
 
@@ -282,6 +302,9 @@ MC_HARNESS(pinvoke) {
   }
   for (int i = 0; i < s.next.get(); i++) MC_CHECK(s.ran[i].get() == 1, "functor %d ran %d times in total", i, s.ran[i].get());
   mc::observe("functors", s.next.get());
+  mc::observe("sib_inline", s.sib_inline.get());
+  mc::observe("sib_pending", s.sib_pending.get());
+  mc::observe("sib_other", s.sib_other.get());
 }
 
 // ================================================================================================ C46
@@ -326,7 +349,7 @@ void reset_thread() {
 }
 
 struct Cfg {
-  int N, mult, smult, rel;
+  int N, mult, smult, rel, lf;
   std::string prog, sched;
 };
 
@@ -449,7 +472,7 @@ void run_pipe(dispenso::ThreadPool& pool, int n, Meter& m) {
 }
 
 // ---- graphs: chain (k -> k+1) and comb (fork k -> leaf k first, fork k+1 second: the maintainers' deep-graph shape)
-void run_graph(dispenso::ThreadPool& pool, const std::string& exec, bool comb, int n, Meter& m) {
+void run_graph(dispenso::ThreadPool& pool, const std::string& exec, bool comb, int n, int lf10, Meter& m) {
   dispenso::Graph g;
   std::vector<dispenso::Node*> forks((size_t)n), leaves((size_t)n);
   for (int i = 0; i < n; i++) {
@@ -478,7 +501,7 @@ void run_graph(dispenso::ThreadPool& pool, const std::string& exec, bool comb, i
   } else {
     dispenso::ConcurrentTaskSet ts(pool);
     dispenso::ConcurrentTaskSetExecutor ex;
-    ex(ts, g);
+    ex(ts, g, true, (float)lf10 / 10.0f); // poolRecursiveLoadFactor: 3.0 is the default, 0 makes pool threads inline whenever work is pending
   }
   int want = comb ? 2 * n : n;
   MC_CHECK(m.done.get() == want, "graph ran %d of %d nodes", m.done.get(), want);
@@ -515,9 +538,9 @@ void run_prog(const Cfg& c, int n, Meter& m) {
   } else if (p == "pipe") {
     run_pipe(pool, n, m);
   } else if (p == "graph_st" || p == "graph_pf" || p == "graph_cts") {
-    run_graph(pool, p.substr(6), false, n, m);
+    run_graph(pool, p.substr(6), false, n, c.lf, m);
   } else if (p == "comb_st" || p == "comb_pf" || p == "comb_cts") {
-    run_graph(pool, p.substr(5), true, n, m);
+    run_graph(pool, p.substr(5), true, n, c.lf, m);
   } else {
     MC_CHECK(false, "harness: unknown program %s", p.c_str());
   }
@@ -531,6 +554,7 @@ MC_HARNESS(depth) {
   c.mult = (int)P("mult", 1);
   c.smult = (int)P("smult", 1);
   c.rel = (int)P("rel", 0);
+  c.lf = (int)P("lf", 30);
   c.prog = P.s("prog", "sched_pool");
   c.sched = P.s("sched", "p");
   int n = (int)P("n", 8), n0 = (int)P("n0", 0), tol = (int)P("tol", 0);
